@@ -151,6 +151,11 @@ class Timeline(object):
         self.options = {k: v for k, v in DEFAULT_OPTIONS.items()}
         if options:
             self.options.update(options)
+        # every timeline gets its own default scale and engine options:
+        # both are modified below and must not be shared between instances
+        if not (options and "scale" in options):
+            self.options["scale"] = DEFAULT_OPTIONS["scale"].copy()
+        self.options["labella"] = dict(self.options["labella"])
         self.direction = self.options["direction"]
         self.options["labella"]["direction"] = self.direction
         # parse items
